@@ -65,8 +65,8 @@ def feed(cmd, chunks, timeout=20.0, env=None):
                     timed_out = True
                     break
                 spins += 1
-                if spins > 200:
-                    time.sleep(0.0002)
+                if spins > 20:
+                    time.sleep(0.0001 if spins < 200 else 0.001)
             if timed_out or p.poll() is not None:
                 break
     finally:
